@@ -189,6 +189,58 @@ def run(text, predicate, user_flags=None, import_root=None, rules=None, connecti
   return out
 
 
+def run_like_logica_py(text, predicate, user_flags=None, import_root=None, rules=None, probe=None):
+  """The path of `logica.py <file> run <predicate>` on SQLite, through the repository's own script runner:
+  statements = [preamble] + defines_and_exports + [main]  ->  sqlite3_logica.RunSqlScript(statements, 'csv').
+  The typed rows are then read by executing preamble + main statement once more on the state the script left (the main
+  statement is a SELECT) and must render (sqlite3_logica.Csv) to what the script runner returned."""
+  if rules is None:
+    rules, bad = parse_program(text, import_root)
+    if bad:
+      return bad
+  prog, statements, formatted, bad = compile_predicate(rules, predicate, user_flags)
+  if bad:
+    return bad
+  sl = mods()['sqlite3_logica']
+  orig = sl.SqliteConnect
+
+  ticks = [0]
+
+  def progress():
+    ticks[0] += 1
+    return 1 if ticks[0] > SQL_TICK_LIMIT else 0
+
+  def connect_and_probe(*a, **k):
+    con = orig(*a, **k)
+    if probe is not None:
+      probe.attach(con)
+    con.set_progress_handler(progress, 100000)      # the same step budget as execute_sqlite: a runaway query is a capped case
+    return con
+  sl.SqliteConnect = connect_and_probe
+  try:
+    csv_text = sl.RunSqlScript(statements, 'csv')
+  except MemoryError:
+    return Outcome('capped', stage='execute', message='MemoryError under the address-space limit while executing (case discarded)', statements=statements)
+  except Exception as e:
+    if ticks[0] > SQL_TICK_LIMIT:
+      return Outcome('capped', stage='execute', message='query exceeded the step budget (inconclusive case)', statements=statements)
+    return Outcome('internal', stage='execute', exc_type=type(e).__name__, message=str(e)[:500], tb=traceback.format_exc()[-2000:],
+                   statements=statements, exc=e)
+  finally:
+    sl.SqliteConnect = orig
+  out = execute_sqlite([statements[0], statements[-1]])
+  out.sql = formatted
+  out.statements = statements
+  if out.kind == 'rows':
+    try:
+      want = sl.Csv(out.columns, [tuple(r) for r in out.rows])
+      out.script_output_matches = sorted(str(csv_text).splitlines()) == sorted(str(want).splitlines())
+      out.script_output = str(csv_text)[:600]
+    except Exception as e:
+      out.script_output_matches = None
+  return out
+
+
 def compile_only(text, predicate, user_flags=None, import_root=None, rules=None):
   if rules is None:
     rules, bad = parse_program(text, import_root)
